@@ -85,6 +85,21 @@ check("C12",
       "come from Session.tla; MC_Engine checks InvInputsOnce/InvCausal on all interleavings.",
       ENG, "TLA+ engine model + trace validation with causality clauses (TLC)", "DESIGN.md §4 C12")
 
+check("C19",
+      "Indexing.tla transcribes numpy indexing for integers (negative on finite dimensions), lists and forward slices; "
+      "MC_Indexing enumerates all ~23k expressions over the component menus for shape (2,3)+1 (thorough: also (2,)+2) and "
+      "checks the transcription against itself. The same menus drive real BlockSeries objects in histories of 8 "
+      "expressions; TLC (Trace_Indexing) computes with Indexing!Verdict which cells each expression covers and what it "
+      "returns (scalar/shape/elements/mask) and validates the tracer's event stream against Engine.tla: Begin requires "
+      "an absent cell (exactly once while cached), invalid expressions (open-ended or negative orders, out-of-range) "
+      "must be refused with IndexError before anything is evaluated, self-referential definitions must end in "
+      "RuntimeError via PendingHit with all markers removed; finite-only indices give views with numpy's shape and the "
+      "original's elements.",
+      "Trusted: TLC/SANY 1.8.0, Json module, the harness tracer; the transcription covers at most one list component per "
+      "expression and steps 1-2 (cross-checked against numpy's own indexing on 300 sampled expressions per shape).",
+      "TLA+ transcription of numpy indexing + engine model; exhaustive expression enumeration (TLC) + trace validation",
+      "DESIGN.md §4 C19")
+
 ALL = [f"C{i:02d}" for i in range(1, 21)]
 
 
